@@ -28,12 +28,17 @@ func genC09(concurrent bool) func(rng *Rng, sc *Scenario) {
 					if g.rng.Chance(1, 4) {
 						return []Action{{Op: "obs"}, {Op: "adderr", S: "E-" + id}, {Op: "write", S: id + ";"}}
 					}
+					if g.rng.Chance(1, 4) {
+						return []Action{{Op: "obs"}, {Op: "wstr", S: id + "-1;"}, {Op: "wstr", S: id + "-2;"}} // panics if the writer fails
+					}
 				default:
 					switch g.rng.Intn(8) {
 					case 0:
 						return []Action{{Op: "write", S: "<" + id}, {Op: "next"}, {Op: "write", S: id + ">"}}
 					case 1:
 						return []Action{{Op: "status", N: 202}, {Op: "next"}, {Op: "obs"}}
+					case 2:
+						return []Action{{Op: "obs"}, {Op: "wrapnext"}, {Op: "obs"}}
 					}
 				}
 				return nil
@@ -82,6 +87,18 @@ func genC09(concurrent bool) func(rng *Rng, sc *Scenario) {
 			sc.Clients = append(sc.Clients, cl)
 		}
 		sc.OrderSeed = rng.U64() | 1
+		// writer faults: a failing Write inside WriteString is a crash at that instant
+		for t := range sc.Clients {
+			for j := range sc.Clients[t].Reqs {
+				if rng.Chance(1, 5) {
+					f := WFault{At: rng.Intn(3), N: rng.Intn(3)}
+					if rng.Chance(1, 2) {
+						f.Err = "reset"
+					}
+					sc.Clients[t].Reqs[j].WFaults = []WFault{f}
+				}
+			}
+		}
 		// crash points: dry-run a request alone to learn which handlers run for it, then plant a panic in one of them
 		nPanics := rng.Range(1, 5)
 		for i := 0; i < nPanics; i++ {
@@ -169,6 +186,10 @@ func checkC09(sc *Scenario) *CheckOut {
 		p := rec.PanicAt[0]
 		pit := rec.Trace[p]
 		want := panicValue(pit.V, pit.H)
+		if pit.V == "werr" {
+			want = rec.PanicVal // the writer's injected error, thrown by WriteString
+			out.Faults["writer-fault-turned-into-panic"]++
+		}
 		if hook == "" {
 			if rec.Returned || rec.Escaped == "" {
 				fail(rec, "swallowed", "no panic hook is installed but ServeHTTP returned normally after handler %s panicked", pit.H)
@@ -242,8 +263,8 @@ func checkC09(sc *Scenario) *CheckOut {
 
 func init() {
 	rule := "a run is non-trivial when at least one planted handler panic actually fired"
-	register(&Profile{Prop: "C09", Name: "sequential", Quick: 8000, Thorough: 500000, Gen: genC09(false), Check: checkC09, Rule: rule, Faulty: true})
-	register(&Profile{Prop: "C09", Name: "concurrent", Quick: 6000, Thorough: 400000, Gen: genC09(true), Check: checkC09, Rule: rule, Faulty: true})
+	register(&Profile{Prop: "C09", Name: "sequential", Quick: 24000, Thorough: 500000, Gen: genC09(false), Check: checkC09, Rule: rule, Faulty: true})
+	register(&Profile{Prop: "C09", Name: "concurrent", Quick: 18000, Thorough: 400000, Gen: genC09(true), Check: checkC09, Rule: rule, Faulty: true})
 }
 
 var _ = strings.Join
